@@ -35,6 +35,14 @@ Definition O_EXCL : N := 128.
 Definition O_TRUNC : N := 512.
 Definition O_APPEND : N := 1024.
 
+(* strings.HasPrefix *)
+Fixpoint is_prefix (p s : str) : bool :=
+  match p, s with
+  | [], _ => true
+  | x :: p', y :: s' => N.eqb x y && is_prefix p' s'
+  | _ :: _, [] => false
+  end.
+
 Definition has (x bit : N) : bool := negb (N.eqb (N.land x bit) 0).
 
 (* vfs.go:582 ToOpenMode *)
@@ -211,7 +219,7 @@ Record finfo := { fi_name : str; fi_size : Z; fi_mode : N; fi_uid : Z; fi_gid : 
 
 Inductive res :=
 | ROk
-| RErr (e : ekind)
+| RFail (e : ekind)
 | RErrPath (e : ekind) (path : str)        (* error whose reported path is not the argument *)
 | RInfo (i : finfo)
 | RStr (s : str)
@@ -328,18 +336,18 @@ Definition win (v : view) : bool := ostype_eqb (v_os v) Windows.
 (* Mkdir, memfs.go:414 *)
 Definition mkdir (s : fsys) (v : view) (name : str) (perm : N) : fsys * res :=
   match name with
-  | [] => (s, RErr ENoSuchDir)
+  | [] => (s, RFail ENoSuchDir)
   | _ =>
       let r := search_node s v name SlEval in
-      if negb (is_not_exist (sr_err r)) || negb (pi_is_last (sr_pi r)) then (s, RErr (sr_err r))
+      if negb (is_not_exist (sr_err r)) || negb (pi_is_last (sr_pi r)) then (s, RFail (sr_err r))
       else match sr_parent r with
            | None => (s, RPanic)
            | Some parent =>
-               if negb (perm_on (f_heap s) parent (N.lor OpenWrite OpenLookup) (v_user v)) then (s, RErr EPermDenied)
+               if negb (perm_on (f_heap s) parent (N.lor OpenWrite OpenLookup) (v_user v)) then (s, RFail EPermDenied)
                else
                  let part := pi_part (sr_pi r) in
                  match alookup str_eqb part (children (f_heap s) parent) with
-                 | Some _ => (s, RErr EFileExists)
+                 | Some _ => (s, RFail EFileExists)
                  | None => (fst (create_dir s v parent part perm), ROk)
                  end
            end
@@ -367,13 +375,13 @@ Definition mkdir_all (s : fsys) (v : view) (path : str) (perm : N) : fsys * res 
   match sr_child r with
   | Some c =>
       match get h c with
-      | Some (NDir _ _) => if is_file_exists (sr_err r) then (s, ROk) else (s, RErr (sr_err r))
+      | Some (NDir _ _) => if is_file_exists (sr_err r) then (s, ROk) else (s, RFail (sr_err r))
       | Some (NFile _ _ _ _) => (s, RErrPath ENotADirectory (pi_left_part (sr_pi r)))
       | _ => (* symlink child (loop budget exceeded): falls through to the creation loop *)
           match sr_parent r with
           | None => (s, RPanic)
           | Some parent =>
-              if negb (perm_on h parent (N.lor OpenWrite OpenLookup) (v_user v)) then (s, RErr EPermDenied)
+              if negb (perm_on h parent (N.lor OpenWrite OpenLookup) (v_user v)) then (s, RFail EPermDenied)
               else (mkdir_all_loop (S (length (pi_path (sr_pi r)))) s v parent (sr_pi r) perm, ROk)
           end
       end
@@ -381,7 +389,7 @@ Definition mkdir_all (s : fsys) (v : view) (path : str) (perm : N) : fsys * res 
       match sr_parent r with
       | None => (s, RPanic)
       | Some parent =>
-          if negb (perm_on h parent (N.lor OpenWrite OpenLookup) (v_user v)) then (s, RErr EPermDenied)
+          if negb (perm_on h parent (N.lor OpenWrite OpenLookup) (v_user v)) then (s, RFail EPermDenied)
           else (mkdir_all_loop (S (length (pi_path (sr_pi r)))) s v parent (sr_pi r) perm, ROk)
       end
   end.
@@ -392,31 +400,31 @@ Definition open_file (s : fsys) (v : view) (view_ix : nat) (name : str) (flag pe
   let om := to_open_mode flag in
   let r := search_node s v name SlEval in
   let e := sr_err r in
-  if (negb (is_file_exists e) && negb (is_not_exist e)) || negb (pi_is_last (sr_pi r)) then (s, inl (RErr e))
+  if (negb (is_file_exists e) && negb (is_not_exist e)) || negb (pi_is_last (sr_pi r)) then (s, inl (RFail e))
   else
     let h := f_heap s in
     let open_existing (c : nat) : fsys * (res + handle) :=
       match get h c with
       | Some (NFile d k i m) =>
-          if negb (check_permission m om (v_user v)) then (s, inl (RErr EPermDenied))
-          else if has om OpenCreateExcl then (s, inl (RErr EFileExists))
+          if negb (check_permission m om (v_user v)) then (s, inl (RFail EPermDenied))
+          else if has om OpenCreateExcl then (s, inl (RFail EFileExists))
           else
             let d1 := if has om OpenTruncate then [] else d in
             let at_ := if has om OpenAppend then Z.of_nat (length d1) else 0%Z in
             (with_heap s (upd h c (NFile d1 k i m)), inr (new_handle c view_ix name at_ om))
       | Some (NDir _ m) =>
-          if has om OpenWrite then (s, inl (RErr EIsADirectory))
-          else if negb (check_permission m om (v_user v)) then (s, inl (RErr EPermDenied))
+          if has om OpenWrite then (s, inl (RFail EIsADirectory))
+          else if negb (check_permission m om (v_user v)) then (s, inl (RFail EPermDenied))
           else (s, inr (new_handle c view_ix name 0 om))
       | _ => (s, inr (new_handle c view_ix name 0 om))
       end in
     if is_not_exist e then
-      if negb (has om OpenCreate) then (s, inl (RErr e))
+      if negb (has om OpenCreate) then (s, inl (RFail e))
       else match sr_parent r with
            | None => (s, inl RPanic)
            | Some parent =>
                if negb (has om OpenWrite) || negb (perm_on h parent (N.lor OpenWrite OpenLookup) (v_user v))
-               then (s, inl (RErr EPermDenied))
+               then (s, inl (RFail EPermDenied))
                else
                  let part := pi_part (sr_pi r) in
                  match alookup str_eqb part (children h parent) with
@@ -436,22 +444,22 @@ Definition remove (s : fsys) (v : view) (name : str) : fsys * res :=
   let r := search_node s v name SlLstat in
   match sr_child r, sr_parent r with
   | Some c, Some parent =>
-      if negb (is_file_exists (sr_err r)) then (s, RErr (sr_err r))
+      if negb (is_file_exists (sr_err r)) then (s, RFail (sr_err r))
       else
         let h := f_heap s in
-        if negb (perm_on h parent OpenWrite (v_user v)) then (s, RErr EPermDenied)
-        else if Nat.eqb parent c then (s, RDeadlock)     (* parent.mu.Lock(); child.Lock() on the same node *)
+        if Nat.eqb parent c then (s, RFail EInvalidArgument)     (* the root directory *)
+        else if negb (perm_on h parent OpenWrite (v_user v)) then (s, RFail EPermDenied)
         else
           match get h c with
-          | Some (NDir (_ :: _) _) => (s, RErr EDirNotEmpty)
+          | Some (NDir (_ :: _) _) => (s, RFail EDirNotEmpty)
           | _ =>
               let part := pi_part (sr_pi r) in
               match alookup str_eqb part (children h parent) with
-              | None => (s, RErr ENoSuchDir)
+              | None => (s, RFail ENoSuchDir)
               | Some _ => (with_heap s (delete_node (remove_child h parent part) c), ROk)
               end
           end
-  | _, _ => (s, RErr (sr_err r))
+  | _, _ => (s, RFail (sr_err r))
   end.
 
 (* removeAll (recursive), memfs.go:731.  Children are visited in the order of
@@ -483,18 +491,18 @@ Definition remove_all (s : fsys) (v : view) (path : str) : fsys * res :=
   | _ =>
       let r := search_node s v path SlLstat in
       if is_not_exist (sr_err r) then (s, ROk)
-      else if negb (is_file_exists (sr_err r)) then (s, RErr (sr_err r))
+      else if negb (is_file_exists (sr_err r)) then (s, RFail (sr_err r))
       else match sr_child r, sr_parent r with
            | Some c, Some parent =>
                let h := f_heap s in
                let nonempty_dir := match get h c with Some (NDir (_ :: _) _) => true | _ => false end in
-               if nonempty_dir && Nat.eqb parent c then (s, RDeadlock)   (* removeAll(c) locks the node already held *)
+               if Nat.eqb parent c then (s, RFail EInvalidArgument)     (* the root directory *)
                else
                  let '(h1, e1) := if nonempty_dir then remove_all_rec (S (length h)) h (v_user v) c else (h, None) in
                  match e1 with
-                 | Some e => (with_heap s h1, RErr e)
+                 | Some e => (with_heap s h1, RFail e)
                  | None =>
-                     if negb (perm_on h1 parent OpenWrite (v_user v)) then (with_heap s h1, RErr EPermDenied)
+                     if negb (perm_on h1 parent OpenWrite (v_user v)) then (with_heap s h1, RFail EPermDenied)
                      else (with_heap s (delete_node (remove_child h1 parent (pi_part (sr_pi r))) c), ROk)
                  end
            | _, _ => (s, RPanic)
@@ -504,34 +512,38 @@ Definition remove_all (s : fsys) (v : view) (path : str) : fsys * res :=
 (* Rename, memfs.go:757 *)
 Definition rename (s : fsys) (v : view) (oldpath newpath : str) : fsys * res :=
   let ro := search_node s v oldpath SlLstat in
-  if negb (is_file_exists (sr_err ro)) then (s, RErr (sr_err ro))
+  if negb (is_file_exists (sr_err ro)) then (s, RFail (sr_err ro))
   else
     let rn := search_node s v newpath SlLstat in
-    if negb (is_file_exists (sr_err rn)) && negb (is_not_exist (sr_err rn)) then (s, RErr (sr_err rn))
+    if negb (is_file_exists (sr_err rn)) && negb (is_not_exist (sr_err rn)) then (s, RFail (sr_err rn))
+    else if is_not_exist (sr_err rn) && negb (pi_is_last (sr_pi rn)) then (s, RFail (sr_err rn))
     else match sr_parent ro, sr_child ro, sr_parent rn with
          | Some op, Some oc, Some np =>
              let h := f_heap s in
-             if negb (perm_on h op OpenWrite (v_user v)) then (s, RErr EPermDenied)
-             else if negb (Nat.eqb np op) && negb (perm_on h np OpenWrite (v_user v)) then (s, RErr EPermDenied)
+             if negb (perm_on h op OpenWrite (v_user v)) then (s, RFail EPermDenied)
+             else if negb (Nat.eqb np op) && negb (perm_on h np OpenWrite (v_user v)) then (s, RFail EPermDenied)
              else if str_eqb (pi_path (sr_pi ro)) (pi_path (sr_pi rn)) then (s, ROk)
              else
                let move (h0 : heap) :=
                  (with_heap s (remove_child (add_child h0 np (pi_part (sr_pi rn)) oc) op (pi_part (sr_pi ro))), ROk) in
                match get h oc with
                | Some (NDir _ _) =>
-                   if negb (is_not_exist (sr_err rn))
-                   then (s, RErr (if win v then EW_AccessDenied else sr_err rn))
+                   if Nat.eqb oc op
+                      || is_prefix (pi_path (sr_pi ro) ++ [sepc (v_os v)]) (pi_path (sr_pi rn))
+                   then (s, RFail EInvalidArgument)
+                   else if negb (is_not_exist (sr_err rn))
+                   then (s, RFail (if win v then EW_AccessDenied else sr_err rn))
                    else move h
-               | Some (NFile _ _ _ _) =>
+               | Some _ =>            (* file or symbolic link *)
                    match sr_child rn with
                    | None => move h
                    | Some nc =>
                        match get h nc with
-                       | Some (NFile _ _ _ _) => move (delete_node h nc)
-                       | _ => (s, RErr (if win v then EW_AccessDenied else EC_FileExists))
+                       | Some (NFile _ _ _ _) | Some (NSym _ _) => move (delete_node h nc)
+                       | _ => (s, RFail (if win v then EW_AccessDenied else EC_FileExists))
                        end
                    end
-               | _ => move h      (* symlink source: no check at all *)
+               | None => move h
                end
          | _, _, _ => (s, RPanic)
          end.
@@ -540,22 +552,23 @@ Definition rename (s : fsys) (v : view) (oldpath newpath : str) : fsys * res :=
 Definition link (s : fsys) (v : view) (oldname newname : str) : fsys * res :=
   let ro := search_node s v oldname SlLstat in
   match sr_child ro with
-  | None => (s, RErr (sr_err ro))
+  | None => (s, RFail (sr_err ro))
   | Some oc =>
-      if negb (is_file_exists (sr_err ro)) then (s, RErr (sr_err ro))
+      if negb (is_file_exists (sr_err ro)) then (s, RFail (sr_err ro))
       else
         let rn := search_node s v newname SlLstat in
-        if negb (is_not_exist (sr_err rn)) then (s, RErr (if win v then EW_AlreadyExists else sr_err rn))
+        if negb (is_not_exist (sr_err rn)) then (s, RFail (if win v then EW_AlreadyExists else sr_err rn))
+        else if negb (pi_is_last (sr_pi rn)) then (s, RFail (sr_err rn))
         else match sr_parent rn with
              | None => (s, RPanic)
              | Some np =>
                  let h := f_heap s in
-                 if negb (perm_on h np OpenWrite (v_user v)) then (s, RErr EPermDenied)
+                 if negb (perm_on h np OpenWrite (v_user v)) then (s, RFail EPermDenied)
                  else match get h oc with
                       | Some (NFile d k i m) =>
                           let h1 := add_child h np (pi_part (sr_pi rn)) oc in
                           (with_heap s (upd h1 oc (NFile d (k + 1) i m)), ROk)
-                      | _ => (s, RErr (if win v then EW_AccessDenied else EC_OpNotPermitted))
+                      | _ => (s, RFail (if win v then EW_AccessDenied else EC_OpNotPermitted))
                       end
              end
   end.
@@ -563,66 +576,66 @@ Definition link (s : fsys) (v : view) (oldname newname : str) : fsys * res :=
 (* Symlink, memfs.go:899 *)
 Definition symlink (s : fsys) (v : view) (oldname newname : str) : fsys * res :=
   let r := search_node s v newname SlLstat in
-  if negb (is_not_exist (sr_err r)) then (s, RErr (sr_err r))
+  if negb (is_not_exist (sr_err r)) || negb (pi_is_last (sr_pi r)) then (s, RFail (sr_err r))
   else match sr_parent r with
        | None => (s, RPanic)
        | Some parent =>
-           if negb (perm_on (f_heap s) parent OpenWrite (v_user v)) then (s, RErr EPermDenied)
+           if negb (perm_on (f_heap s) parent OpenWrite (v_user v)) then (s, RFail EPermDenied)
            else (create_symlink s v parent (pi_part (sr_pi r)) (clean (v_os v) oldname), ROk)
        end.
 
 (* Readlink, memfs.go:619 *)
 Definition readlink (s : fsys) (v : view) (name : str) : res :=
   let r := search_node s v name SlLstat in
-  if negb (is_file_exists (sr_err r)) then RErr (sr_err r)
+  if negb (is_file_exists (sr_err r)) then RFail (sr_err r)
   else match sr_child r with
        | Some c => match get (f_heap s) c with
                    | Some (NSym l _) => RStr l
-                   | _ => RErr (if win v then EW_NotReparsePoint else EC_InvalidArgument)
+                   | _ => RFail (if win v then EW_NotReparsePoint else EC_InvalidArgument)
                    end
-       | None => RErr (if win v then EW_NotReparsePoint else EC_InvalidArgument)
+       | None => RFail (if win v then EW_NotReparsePoint else EC_InvalidArgument)
        end.
 
 (* Truncate, memfs.go:949 *)
 Definition truncate (s : fsys) (v : view) (name : str) (size : Z) : fsys * res :=
   let r := search_node s v name SlEval in
-  if negb (is_file_exists (sr_err r)) then (s, RErr (sr_err r))
+  if negb (is_file_exists (sr_err r)) then (s, RFail (sr_err r))
   else match sr_child r with
        | Some c =>
            match get (f_heap s) c with
            | Some (NFile d k i m) =>
-               if Z.ltb size 0 then (s, RErr EInvalidArgument)
+               if Z.ltb size 0 then (s, RFail EInvalidArgument)
                else (with_heap s (upd (f_heap s) c (NFile (truncate_data d size) k i m)), ROk)
-           | _ => (s, RErr EIsADirectory)
+           | _ => (s, RFail EIsADirectory)
            end
-       | None => (s, RErr EIsADirectory)
+       | None => (s, RFail EIsADirectory)
        end.
 
 (* Chmod, memfs.go:103 *)
 Definition chmod (s : fsys) (v : view) (name : str) (mode : N) : fsys * res :=
   let r := search_node s v name SlEval in
   match sr_child r with
-  | None => (s, RErr (sr_err r))
+  | None => (s, RFail (sr_err r))
   | Some c =>
-      if negb (is_file_exists (sr_err r)) then (s, RErr (sr_err r))
+      if negb (is_file_exists (sr_err r)) then (s, RFail (sr_err r))
       else match get (f_heap s) c with
-           | Some (NSym _ _) | None => (s, RErr EOpNotPermitted)
+           | Some (NSym _ _) | None => (s, RFail EOpNotPermitted)
            | Some n =>
                if set_mode_ok (node_meta n) (v_user v)
                then (with_heap s (upd (f_heap s) c (set_meta n (with_mode (node_meta n) mode))), ROk)
-               else (s, RErr EOpNotPermitted)
+               else (s, RFail EOpNotPermitted)
            end
   end.
 
 (* Chown / Lchown, memfs.go:128, 299 *)
 Definition chown_gen (slm : slmode) (s : fsys) (v : view) (name : str) (uid gid : Z) : fsys * res :=
-  if (v_idm v && negb (us_admin (v_user v))) || win v then (s, RErr EOpNotPermitted)
+  if (v_idm v && negb (us_admin (v_user v))) || win v then (s, RFail EOpNotPermitted)
   else
     let r := search_node s v name slm in
     match sr_child r with
-    | None => (s, RErr (sr_err r))
+    | None => (s, RFail (sr_err r))
     | Some c =>
-        if negb (is_file_exists (sr_err r)) then (s, RErr (sr_err r))
+        if negb (is_file_exists (sr_err r)) then (s, RFail (sr_err r))
         else match get (f_heap s) c with
              | Some n => (with_heap s (upd (f_heap s) c (set_meta n (with_owner (node_meta n) uid gid))), ROk)
              | None => (s, RPanic)
@@ -633,11 +646,11 @@ Definition chown_gen (slm : slmode) (s : fsys) (v : view) (name : str) (uid gid 
 Definition chtimes (s : fsys) (v : view) (name : str) : res :=
   let r := search_node s v name SlLstat in
   match sr_child r with
-  | None => RErr (sr_err r)
+  | None => RFail (sr_err r)
   | Some c =>
-      if negb (is_file_exists (sr_err r)) then RErr (sr_err r)
+      if negb (is_file_exists (sr_err r)) then RFail (sr_err r)
       else match get (f_heap s) c with
-           | Some n => if set_mode_ok (node_meta n) (v_user v) then ROk else RErr EOpNotPermitted
+           | Some n => if set_mode_ok (node_meta n) (v_user v) then ROk else RFail EOpNotPermitted
            | None => RPanic
            end
   end.
@@ -645,24 +658,24 @@ Definition chtimes (s : fsys) (v : view) (name : str) : res :=
 (* Chdir, memfs.go:55: returns the new current directory on success *)
 Definition chdir (s : fsys) (v : view) (dir : str) : res + str :=
   let r := search_node s v dir SlLstat in
-  if negb (is_file_exists (sr_err r)) then inl (RErr (sr_err r))
+  if negb (is_file_exists (sr_err r)) then inl (RFail (sr_err r))
   else match sr_child r with
        | Some c =>
            match get (f_heap s) c with
            | Some (NDir _ m) =>
-               if check_permission m OpenLookup (v_user v) then inr (pi_path (sr_pi r)) else inl (RErr EPermDenied)
-           | _ => inl (RErr (if win v then EW_DirNameInvalid else ENotADirectory))
+               if check_permission m OpenLookup (v_user v) then inr (pi_path (sr_pi r)) else inl (RFail EPermDenied)
+           | _ => inl (RFail (if win v then EW_DirNameInvalid else ENotADirectory))
            end
-       | None => inl (RErr (if win v then EW_DirNameInvalid else ENotADirectory))
+       | None => inl (RFail (if win v then EW_DirNameInvalid else ENotADirectory))
        end.
 
 (* Stat / Lstat, memfs.go:861, 367 *)
 Definition stat_gen (slm : slmode) (s : fsys) (v : view) (path : str) : res :=
   let r := search_node s v path slm in
   match sr_child r with
-  | None => RErr (sr_err r)
+  | None => RFail (sr_err r)
   | Some c =>
-      if negb (is_file_exists (sr_err r)) then RErr (sr_err r)
+      if negb (is_file_exists (sr_err r)) then RFail (sr_err r)
       else match get (f_heap s) c with
            | Some n => RInfo (fill_stat n (pi_part (sr_pi r)))
            | None => RPanic
@@ -679,11 +692,11 @@ Definition eval_symlinks (s : fsys) (v : view) (path : str) : res :=
 Definition sub (s : fsys) (v : view) (dir : str) : res + view :=
   let r := search_node s v dir SlEval in
   match sr_child r with
-  | None => inl (RErr (sr_err r))
+  | None => inl (RFail (sr_err r))
   | Some c =>
-      if negb (is_file_exists (sr_err r)) then inl (RErr (sr_err r))
+      if negb (is_file_exists (sr_err r)) then inl (RFail (sr_err r))
       else if node_is_dir (f_heap s) c
            then inr {| v_root := c; v_cwd := v_cwd v; v_user := v_user v; v_umask := v_umask v;
                        v_os := v_os v; v_idm := v_idm v |}
-           else inl (RErr ENotADirectory)
+           else inl (RFail ENotADirectory)
   end.
